@@ -140,7 +140,7 @@ def _run_task(args):
 
 
 def clause_of(name):
-    return name.split("@")[0]
+    return re.split(r"[@|]", name)[0]
 
 
 def load_known(prop):
